@@ -1,5 +1,6 @@
 import Driver.Util
 import ImmuModel.Doc.Doc
+import Driver.C19Verify
 /-!
 Driver ops for C19 (document collections).  Wire format of documents (no spaces):
   n | t | f | d<16 hex IEEE bits> | s<hex utf8>; | [v*] | {(<hex key>:v)*}
@@ -175,6 +176,7 @@ def withColl (s : St) (n : String) (k : Coll → St × String) : St × String :=
 
 def step (s : St) : List String → St × String
   | ["new"] => ({}, "ok")
+  | "vdoc" :: rest => (s, C19V.vdoc rest)
   | ["coll", n, fs] =>
     match parseFields fs with
     | some fields => (setColl s n { fields := fields, docs := [] }, "ok")
